@@ -157,6 +157,41 @@ pub fn catalogue() -> Vec<Cell> {
         cells.push(Cell { name: "from_registry/alive".into(), prog: mk(vec![Op::FromRegistry { k }, Op::Sleep(20), Op::Ping { slot: 2, cancel: None }, call(2), Op::FromRegistry { k }, call(3), Op::AlreadyRunning { k }, Op::Stop { slot: 2 }, Op::Await { slot: 2, by_ref: true }, Op::AlreadyRunning { k }, Op::FromRegistry { k }, call(4)]) });
         cells.push(Cell { name: "setup/alive".into(), prog: mk(vec![Op::Setup { k }, Op::Sleep(20), Op::TryFromRegistry { k }, Op::Ping { slot: 2, cancel: None }, call(2), Op::AlreadyRunning { k }]) });
         cells.push(Cell { name: "register/alive".into(), prog: mk(vec![Op::SpawnActor { decl: 0 }, Op::Register { slot: 2 }, Op::Sleep(20), Op::Ping { slot: 2, cancel: None }, Op::FromRegistry { k }, call(4), Op::Unregister { k }, Op::AlreadyRunning { k }, Op::Stop { slot: 2 }, Op::Await { slot: 2, by_ref: false }]) });
+        // an actor handler uses the synchronous try_from_registry (of the *other* service type) while the client is
+        // inside the first from_registry of this one (which, in debug builds, pings the new instance under the
+        // registry's write lock): whatever the lookup answers, everything completes on every runtime
+        {
+            let mut p = mk(vec![
+                Op::Send { slot: 0, script: vec![PStep::Sleep(2), PStep::TryFromRegistry(2), PStep::Yield, PStep::TryFromRegistry(k)], cancel: None },
+                Op::FromRegistry { k },
+                Op::Ping { slot: 0, cancel: None },
+                call(2),
+                Op::Call { slot: 0, script: vec![PStep::TryFromRegistry(k)], cancel: None },
+                Op::Stop { slot: 0 },
+                Op::Await { slot: 0, by_ref: false },
+            ]);
+            // the new service instance takes its time in started(): the registry's write lock is held meanwhile, and the
+            // handler's lookups (after 2 units) fall into that window by a wide margin
+            for d in p.defaults.iter_mut() {
+                d.started = vec![SStep::Sleep(8)];
+            }
+            let mut x = ActorDecl::plain(1);
+            x.holders = vec![0];
+            // decl 0 stays the never-spawned service declaration; the plain actor is decl 1 (slots 1 and 3)
+            p.actors.push(x);
+            // slots: [0: svc addr (empty), 1: plain addr, 2: svc owning (empty), 3: plain owning (empty)]
+            for ops in p.clients.iter_mut() {
+                for o in ops.iter_mut() {
+                    match o {
+                        Op::Send { slot, .. } | Op::Ping { slot, .. } | Op::Stop { slot } | Op::Await { slot, .. } if *slot == 0 => *slot = 1,
+                        Op::Call { slot, .. } if *slot == 0 => *slot = 1,
+                        Op::Call { slot, .. } if *slot == 2 => *slot = 4,
+                        _ => {}
+                    }
+                }
+            }
+            cells.push(Cell { name: "try_from_registry_in_handler_while_spawning".into(), prog: p });
+        }
         cells.push(Cell { name: "replace/alive".into(), prog: mk(vec![Op::FromRegistry { k }, Op::SpawnActor { decl: 0 }, Op::Replace { slot: 3 }, Op::Sleep(20), Op::Ping { slot: 3, cancel: None }, Op::Ping { slot: 2, cancel: None }, Op::FromRegistry { k }, call(5)]) });
     }
     cells
@@ -279,6 +314,11 @@ fn run_cell_inner(cell: &Cell) -> (String, usize) {
         w
     });
     let evs = log::take();
+    if std::env::var("XRT_TRACE").map(|v| v == cell.name).unwrap_or(false) {
+        for e in &evs {
+            eprintln!("{}", log::fmt_ev(e));
+        }
+    }
     (record(&evs, watchdog), evs.len())
 }
 
